@@ -24,9 +24,10 @@ def setup(E):
     sftp_server.declare_c30_helpers(E)
     E.contract("paramiko.sftp_attr.SFTPAttributes._pack", params={"msg": "obj:Message"}, returns="none",
                requires=["msg.packet.tell() == len(msg.packet.getvalue())"],
-               ensures=["msg.packet.getvalue()[0:len(old(msg.packet.getvalue()))] == old(msg.packet.getvalue())",
-                        "len(msg.packet.getvalue()) >= len(old(msg.packet.getvalue()))",
-                        "msg.packet.tell() == len(msg.packet.getvalue())"],
+               # appends some encoding of the attributes (C33 says which); written definitionally to keep the buffer's shape
+               cases=[dict(name="appended", when="True",
+                           post={"msg.packet.buf": "msg.packet.getvalue() + fn('packed_attrs', 'bytes', self)",
+                                 "msg.packet.pos": "len(msg.packet.getvalue()) + len(fn('packed_attrs', 'bytes', self))"})],
                modifies=["msg.packet.buf", "msg.packet.pos"], raises={"struct.error": "True"})
 
 CLAIMED = True
